@@ -22,9 +22,9 @@ def find_generic(suffix):
 
 
 RIVIA_INLINE = [
-    (rx(r"^<Option<Component<'_>> as core::option::OptionExt<Component<'_>>>::has::<Component<'_>>$"),
+    (rx(r"^<Option<Component<'_>> as (?:core::option::)?OptionExt<Component<'_>>>::has::<Component<'_>>$"),
      lambda mir, c, m: mir.get(r"^fn core::option::<impl at src/core/option\.rs[^>]*>::has\(")),
-    (rx(r"^sys::fs::path::is_empty::<&PathBuf>$"), lambda mir, c, m: mir.get(r"^fn (sys::fs::path::)?is_empty\(")),
+    (rx(r"^(?:sys::fs::path::)?is_empty::<&PathBuf>$"), lambda mir, c, m: mir.get(r"^fn (sys::fs::path::)?is_empty\(")),
 ]
 
 
@@ -566,7 +566,7 @@ def run_dispatch(ctx, prop, which):
     cfg = DISPATCH_TARGETS[which]
     solver = ctx.solver("c13_" + which)
     disp = Dispatch(ctx, solver)
-    models = [(rx(r"^<sys::fs::entry::VfsEntry as sys::fs::entry::Entry>::upcast$"), m_entry_upcast_identity)] \
+    models = [(rx(r"^<(?:sys::fs::entry::)?VfsEntry as (?:sys::fs::entry::)?Entry>::upcast$"), m_entry_upcast_identity)] \
         if which == "entry" else []
     ex = new_executor(ctx, solver, models, [], allow_uf=True, on_uf=disp.on_uf, max_block_visits=4)
     line = impl_line(ctx, cfg["src"], cfg["impl"])
@@ -709,12 +709,12 @@ def c13_entry(ctx, prop):
 XDG_INLINE = [
     (rx(r"^config_dir$"), lambda mir, c, m: mir.get(r"^fn config_dir\(\)")),
     (rx(r"^sys_config_dirs$"), lambda mir, c, m: mir.get(r"^fn sys_config_dirs\(\)")),
-    (rx(r"^(crate::)?sys::user::config_dir$"), lambda mir, c, m: mir.get(r"^fn config_dir\(\)")),
-    (rx(r"^(crate::)?sys::user::sys_config_dirs$"), lambda mir, c, m: mir.get(r"^fn sys_config_dirs\(\)")),
-    (rx(r"^sys::user::home_dir$"), lambda mir, c, m: mir.get(r"^fn sys::user::home_dir\(\)")),
+    (rx(r"^(crate::)?(?:sys::user::)?config_dir$"), lambda mir, c, m: mir.get(r"^fn config_dir\(\)")),
+    (rx(r"^(crate::)?(?:sys::user::)?sys_config_dirs$"), lambda mir, c, m: mir.get(r"^fn sys_config_dirs\(\)")),
+    (rx(r"^(?:sys::user::)?home_dir$"), lambda mir, c, m: mir.get(r"^fn sys::user::home_dir\(\)")),
     (rx(r"^home_dir$"), lambda mir, c, m: mir.get(r"^fn sys::user::home_dir\(\)")),
-    (rx(r"^sys::fs::path::home_dir$"), lambda mir, c, m: mir.get(r"^fn sys::fs::path::home_dir\(\)")),
-    (rx(r"^sys::fs::path::parse_paths::<String>$"), lambda mir, c, m: mir.get(r"^fn sys::fs::path::parse_paths\(")),
+    (rx(r"^(?:sys::fs::path::)?home_dir$"), lambda mir, c, m: mir.get(r"^fn sys::fs::path::home_dir\(\)")),
+    (rx(r"^(?:sys::fs::path::)?parse_paths::<String>$"), lambda mir, c, m: mir.get(r"^fn sys::fs::path::parse_paths\(")),
 ]
 
 # The oracle table, written from the XDG Base Directory text / the property statement.
@@ -1468,3 +1468,319 @@ def c11_multi(ctx, prop):
      bounds="every string of 8..=9 chars (any Unicode scalar), every entry, octal any u32")
 def c11_l9(ctx, prop):
     return run_chmod_mode(ctx, prop, 9, lmin=8, tag="c11_mode_l9")
+
+
+# ------------------------------------------------------------------------------------------------
+# C19 (text half): StringExt::{size, to_bool, trim_suffix} on symbolic text
+# ------------------------------------------------------------------------------------------------
+TEXT_INLINE = [
+    (rx(r"^<String as (?:core::string::)?StringExt>::to_bool$"),
+     lambda mir, c, m: mir.get(r"^fn core::string::<impl at src/core/string\.rs:\d+:1: \d+:26>::to_bool\(_1: &String\)")),
+    (rx(r"^<String as (?:core::string::)?StringExt>::size$"),
+     lambda mir, c, m: mir.get(r"^fn core::string::<impl at src/core/string\.rs:\d+:1: \d+:26>::size\(_1: &String\)")),
+    (rx(r"^<str as (?:core::string::)?StringExt>::size$"),
+     lambda mir, c, m: mir.get(r"^fn core::string::<impl at src/core/string\.rs:\d+:1: \d+:23>::size\(_1: &str\)")),
+]
+
+
+def sym_text(solver, prefix, n, ascii_only=False):
+    chars, cons = [], []
+    for i in range(n):
+        nm = "%s_%d" % (prefix, i)
+        solver.declare(nm, "(_ BitVec 32)")
+        chars.append(BV(32, False, nm))
+        if ascii_only:
+            cons.append("(bvult %s #x00000080)" % nm)
+        else:
+            cons.append("(bvule %s #x0010ffff)" % nm)
+            cons.append("(not (and (bvuge %s #x0000d800) (bvule %s #x0000dfff)))" % (nm, nm))
+    return chars, cons
+
+
+def text_model(ex, st, groups, extra):
+    """groups: {name: [BV chars]} -> {name: python str} from a model of pc+extra"""
+    terms = [c.v for g in groups.values() for c in g if not c.concrete]
+    r, model = ex.solver.check(st.pc + extra, want_model=terms or ["true"])
+    if r != "sat":
+        return None
+    out = {}
+    for k, g in groups.items():
+        out[k] = "".join(chr(parse_smt_int(model[c.v])) if not c.concrete else chr(c.v) for c in g)
+    return out
+
+
+def rs_str(s):
+    return '"' + "".join(ch if (32 <= ord(ch) < 127 and ch not in '"\\') else "\\u{%x}" % ord(ch) for ch in s) + '"'
+
+
+def run_text(ctx, prop, nmax, kmax, bmax):
+    from .mirsym.values import bv_bin
+    t0 = time.time()
+    solver = ctx.solver("c19_text")
+    ex = new_executor(ctx, solver, M.make_text_models(), TEXT_INLINE, max_block_visits=16)
+    ob = Obl()
+    unit = dict(status="pass", failures=[])
+    replays = []
+
+    def fail(desc, where, groups, st, extra, kind="functional"):
+        ob.failures.append(dict(kind=kind, desc=desc, where=where, cex=text_model(ex, st, groups, extra)))
+
+    impls = [("str", r"23"), ("String", r"26")]
+    for recv, col in impls:
+        hdr = lambda name, sig: r"^fn core::string::<impl at src/core/string\.rs:\d+:1: \d+:%s>::%s\(%s" % (col, name, sig)
+        self_ty = "&str" if recv == "str" else "&String"
+        # ---- size
+        fn = ctx.mir.get(hdr("size", "_1: " + re.escape(self_ty)))
+        for n in range(0, nmax + 1):
+            chars, cons = sym_text(solver, "sz%s%d" % (recv, n), n)
+
+            def on_size(st, n=n, chars=chars):
+                g = {"s": chars}
+                if st.panic or st.bound_hit:
+                    ob.total += 1
+                    fail("%s::size panics: %s" % (recv, st.panic or st.bound_hit), "StringExt::size", g, st, [], "panic")
+                    return
+                ob.prove(ex, st, "C19: size() is the number of characters (%s, n=%d)" % (recv, n),
+                         bv_bin("Eq", st.retval, BV(64, False, n)), lambda extra: text_model(ex, st, g, extra)) or \
+                    ob.failures[-1].update(where="StringExt::size", fn="size", recv=recv)
+
+            st0 = ex.start(fn, [BoxRef(M.SStr(chars))])
+            st0.pc = cons
+            ex.explore(st0, on_size)
+        # ---- trim_suffix
+        fn = ctx.mir.get(hdr("trim_suffix", "_1: " + re.escape(self_ty) + ", _2: T"))
+        for n in range(0, nmax + 1):
+            for k in range(0, kmax + 1):
+                sc, c1 = sym_text(solver, "ts%s%d_%d_s" % (recv, n, k), n)
+                tc, c2 = sym_text(solver, "ts%s%d_%d_t" % (recv, n, k), k)
+
+                def on_ts(st, n=n, k=k, sc=sc, tc=tc):
+                    g = {"s": sc, "t": tc}
+                    cf = lambda extra: text_model(ex, st, g, extra)
+                    if st.panic or st.bound_hit:
+                        ob.total += 1
+                        fail("C19: %s::trim_suffix panics: %s" % (recv, st.panic or st.bound_hit), "StringExt::trim_suffix", g, st, [], "panic")
+                        ob.failures[-1].update(fn="trim_suffix", recv=recv)
+                        return
+                    res = st.retval
+                    if not isinstance(res, M.SStr):
+                        raise Unsupported("trim_suffix returned %r" % (res,))
+                    is_suffix = B(False) if k > n else (M.chars_eq(sc[n - k:], tc) if k else B(True))
+                    if ex.decide(st, is_suffix):
+                        want = sc[:n - k]
+                    else:
+                        want = sc
+                    okf = B(len(res.chars) == len(want)) if len(res.chars) != len(want) else M.chars_eq(res.chars, want)
+                    ob.prove(ex, st, "C19: trim_suffix removes exactly one trailing occurrence or nothing (%s, n=%d, k=%d)" % (recv, n, k),
+                             okf if not (okf.concrete and okf.v is True and not want) else B(True), cf) or \
+                        ob.failures[-1].update(where="StringExt::trim_suffix", fn="trim_suffix", recv=recv)
+                    if len(ob.samples) < 3 and n == nmax and k == 1:
+                        m = cf([])
+                        if m:
+                            ob.samples.append(dict(obligation="trim_suffix(s,t) == oracle", s=m["s"], t=m["t"]))
+
+                st0 = ex.start(fn, [BoxRef(M.SStr(sc)), M.SStr(tc)])
+                st0.pc = c1 + c2
+                ex.explore(st0, on_ts)
+        # ---- to_bool (ASCII)
+        fn = ctx.mir.get(hdr("to_bool", "_1: " + re.escape(self_ty)))
+        for n in range(0, bmax + 1):
+            chars, cons = sym_text(solver, "tb%s%d" % (recv, n), n, ascii_only=True)
+
+            def on_tb(st, n=n, chars=chars):
+                g = {"s": chars}
+                cf = lambda extra: text_model(ex, st, g, extra)
+                if st.panic or st.bound_hit:
+                    ob.total += 1
+                    fail("C19: %s::to_bool panics: %s" % (recv, st.panic or st.bound_hit), "StringExt::to_bool", g, st, [], "panic")
+                    ob.failures[-1].update(fn="to_bool", recv=recv)
+                    return
+                low = [M.ascii_lower(c) for c in chars]
+                falsy = B(n == 0)
+                if n == 1:
+                    falsy = bv_bin("Eq", chars[0], BV(32, False, ord("0")))
+                if n == 5:
+                    falsy = M.chars_eq(low, [BV(32, False, ord(ch)) for ch in "false"])
+                from .mirsym.values import b_eq
+                ob.prove(ex, st, "C19: to_bool is false exactly for \"\", \"0\" and any casing of \"false\" (%s, n=%d)" % (recv, n),
+                         b_eq(st.retval, b_not(falsy)), cf) or ob.failures[-1].update(where="StringExt::to_bool", fn="to_bool", recv=recv)
+
+            st0 = ex.start(fn, [BoxRef(M.SStr(chars))])
+            st0.pc = cons
+            ex.explore(st0, on_tb)
+    # ---- replay
+    seen = set()
+    for f in ob.failures:
+        if f["kind"] == "bound" or f["cex"] is None:
+            unit["status"], unit["why"] = "inconclusive", f["desc"]
+            continue
+        key = (f.get("fn"), f.get("recv"), f["kind"])
+        if key in seen:
+            continue
+        seen.add(key)
+        s = f["cex"].get("s", "")
+        recv_expr = rs_str(s) if f.get("recv") == "str" else rs_str(s) + ".to_string()"
+        if f.get("fn") == "size":
+            body = '    assert_eq!(%s.size(), %d, "C19: size");\n' % (recv_expr, len(s))
+        elif f.get("fn") == "trim_suffix":
+            t = f["cex"].get("t", "")
+            exp = s[:len(s) - len(t)] if s.endswith(t) else s
+            body = '    assert_eq!(%s.trim_suffix(%s), %s, "C19: trim_suffix");\n' % (recv_expr, rs_str(t), rs_str(exp))
+        else:
+            exp = not (s == "" or s == "0" or s.lower() == "false")
+            body = '    assert_eq!(%s.to_bool(), %s, "C19: to_bool");\n' % (recv_expr, "true" if exp else "false")
+        src = "use rivia::prelude::*;\n#[test]\nfn replay_text() {\n    // %s\n%s}\n" % (f["desc"], body)
+        r = native_test(src, ctx.logdir, "c19_text_%d" % len(seen))
+        reproduced = r["ran"] and r["failed"] > 0
+        rec = dict(kind=f["kind"], desc='"%s" s=%r t=%r' % (f["desc"], s, f["cex"].get("t")), where=f.get("where", ""),
+                   reproduced=reproduced, replay_outcome=r["out"][-400:])
+        if reproduced:
+            rec["replay"] = save_replay(prop, "c19_text", src, f["desc"], dict(failed=r["failed"]))
+        unit["failures"].append(rec)
+        unit["status"] = "violation"
+    return finish(unit, ex, solver, ob, t0, dict(models_used="&str/String as symbolic char sequences with UTF-8 byte-length arithmetic (lib/mirsym/models.py make_text_models)"))
+
+
+@job("c19_text", ["C19", "C12"], "quick",
+     functions=["<str as StringExt>::{size,to_bool,trim_suffix}", "<String as StringExt>::{size,to_bool,trim_suffix} (real MIR)"],
+     bounds="size: every string of 0..=4 Unicode scalars; trim_suffix: every (s, suffix) with |s|<=4, |suffix|<=3 chars (multi-byte included); to_bool: every ASCII string of 0..=6 chars")
+def c19_text(ctx, prop):
+    return run_text(ctx, prop, 4, 3, 6)
+
+
+# ------------------------------------------------------------------------------------------------
+# C15 (text-level laws) + C12: sys::{trim_prefix, trim_suffix, has, has_prefix, has_suffix}
+# Paths are text here (valid UTF-8): Path == &str == symbolic char sequence.
+# ------------------------------------------------------------------------------------------------
+def make_pathtext_models():
+    def m_as_ref(ex, st, args, callee, ty):
+        return M._last_ref(ex, st, args[0]) if isinstance(args[0], (Ref, BoxRef)) else BoxRef(args[0])
+
+    def m_to_str(ex, st, args, callee, ty):
+        return M.opt_some(ex, M.sstr_of(ex, st, args[0]))
+
+    def m_opaque(ex, st, args, callee, ty):
+        return Adt("PathError", None, "FailedToString", [])
+
+    def m_ok_or(ex, st, args, callee, ty):
+        o = args[0]
+        if o.variant == 1:
+            return Adt("Result", 0, "Ok", [o.fields[0]])
+        return Adt("Result", 1, "Err", [args[1]])
+
+    def m_copy(ex, st, args, callee, ty):
+        return M.sstr_of(ex, st, args[0])
+
+    return [
+        (rx(r"^<[TU] as AsRef<Path>>::as_ref$"), m_as_ref),
+        (rx(r"^Path::to_str$"), m_to_str),
+        (rx(r"^(?:errors::path::)?PathError::failed_to_string::<&Path>$"), m_opaque),
+        (rx(r"^Option::<&str>::ok_or::<(?:errors::path::)?PathError>$"), m_ok_or),
+        (rx(r"^<Result<.*> as Try>::branch$"), M.m_try_branch_generic),
+        (rx(r"^<Result<.*> as FromResidual<Result<Infallible, .*>>>::from_residual$"), M.m_from_residual_generic),
+        (rx(r"^Path::to_path_buf$"), m_copy),
+        (rx(r"^<PathBuf as From<&str>>::from$"), m_copy),
+        (rx(r"^<PathBuf as From<String>>::from$"), m_copy),
+    ] + M.make_text_models()
+
+
+PATHTEXT_INLINE = TEXT_INLINE + [
+    (rx(r"^<Path as (?:core::string::)?ToStringExt>::to_string$"),
+     lambda mir, c, m: mir.get(r"^fn core::string::<impl at src/core/string\.rs:\d+:1: \d+:26>::to_string\(_1: &Path\)")),
+]
+
+
+def run_pathtext(ctx, prop, nmax, kmax):
+    t0 = time.time()
+    solver = ctx.solver("c15_pathtext")
+    ex = new_executor(ctx, solver, make_pathtext_models(), PATHTEXT_INLINE, max_block_visits=16)
+    ob = Obl()
+    unit = dict(status="pass", failures=[])
+    fns = {
+        "trim_prefix": r"^fn (sys::fs::path::)?trim_prefix\(_1: T, _2: U\) -> PathBuf",
+        "trim_suffix": r"^fn (sys::fs::path::)?trim_suffix\(_1: T, _2: U\) -> PathBuf",
+        "has": r"^fn (sys::fs::path::)?has\(_1: T, _2: U\) -> bool",
+        "has_prefix": r"^fn (sys::fs::path::)?has_prefix\(_1: T, _2: U\) -> bool",
+        "has_suffix": r"^fn (sys::fs::path::)?has_suffix\(_1: T, _2: U\) -> bool",
+    }
+    for name, hdr in fns.items():
+        fn = ctx.mir.get(hdr)
+        for n in range(0, nmax + 1):
+            for k in range(0, kmax + 1):
+                sc, c1 = sym_text(solver, "pt_%s_%d_%d_s" % (name, n, k), n)
+                tc, c2 = sym_text(solver, "pt_%s_%d_%d_t" % (name, n, k), k)
+
+                def on_path(st, name=name, n=n, k=k, sc=sc, tc=tc):
+                    g = {"s": sc, "t": tc}
+                    cf = lambda extra: text_model(ex, st, g, extra)
+                    if st.panic or st.bound_hit:
+                        ob.total += 1
+                        ob.failures.append(dict(kind="panic" if st.panic else "bound", where="sys::" + name, fn=name, cex=cf([]),
+                                                desc="C12: sys::%s panics: %s" % (name, st.panic or st.bound_hit)))
+                        return
+                    res = st.retval
+                    is_pre = B(False) if k > n else (M.chars_eq(sc[:k], tc) if k else B(True))
+                    is_suf = B(False) if k > n else (M.chars_eq(sc[n - k:], tc) if k else B(True))
+                    if name in ("trim_prefix", "trim_suffix"):
+                        hit = ex.decide(st, is_pre if name == "trim_prefix" else is_suf)
+                        want = (sc[k:] if name == "trim_prefix" else sc[:n - k]) if hit else sc
+                        if not isinstance(res, M.SStr):
+                            raise Unsupported("%s returned %r" % (name, res))
+                        okf = B(False) if len(res.chars) != len(want) else (M.chars_eq(res.chars, want) if want else B(True))
+                        ob.prove(ex, st, "C15: %s(p, s) removes exactly the given %s or returns p unchanged (n=%d, k=%d)" % (
+                            name, "prefix" if name == "trim_prefix" else "suffix", n, k), okf, cf) or \
+                            ob.failures[-1].update(where="sys::" + name, fn=name)
+                    else:
+                        from .mirsym.values import b_eq
+                        if name == "has":
+                            want = B(False) if k > n else b_or(*[(M.chars_eq(sc[i:i + k], tc) if k else B(True)) for i in range(n - k + 1)])
+                        else:
+                            want = is_pre if name == "has_prefix" else is_suf
+                        ob.prove(ex, st, "C15: %s agrees with string containment (n=%d, k=%d)" % (name, n, k), b_eq(res, want), cf) or \
+                            ob.failures[-1].update(where="sys::" + name, fn=name)
+                    if len(ob.samples) < 3 and n == nmax and k == 2 and name == "trim_prefix":
+                        m = cf([])
+                        if m:
+                            ob.samples.append(dict(obligation="trim_prefix(s, t) == oracle", s=m["s"], t=m["t"]))
+
+                st0 = ex.start(fn, [BoxRef(M.SStr(sc)), BoxRef(M.SStr(tc))])
+                st0.pc = c1 + c2
+                ex.explore(st0, on_path)
+    seen = set()
+    for f in ob.failures:
+        if f["kind"] == "bound" or f["cex"] is None:
+            unit["status"], unit["why"] = "inconclusive", f["desc"]
+            continue
+        key = (f.get("fn"), f["kind"])
+        if key in seen:
+            continue
+        seen.add(key)
+        s, t = f["cex"].get("s", ""), f["cex"].get("t", "")
+        name = f["fn"]
+        if name == "trim_prefix":
+            exp = s[len(t):] if s.startswith(t) else s
+            body = '    assert_eq!(sys::trim_prefix(%s, %s), PathBuf::from(%s), "C15: trim_prefix");\n' % (rs_str(s), rs_str(t), rs_str(exp))
+        elif name == "trim_suffix":
+            exp = s[:len(s) - len(t)] if s.endswith(t) else s
+            body = '    assert_eq!(sys::trim_suffix(%s, %s), PathBuf::from(%s), "C15: trim_suffix");\n' % (rs_str(s), rs_str(t), rs_str(exp))
+        else:
+            exp = {"has": t in s, "has_prefix": s.startswith(t), "has_suffix": s.endswith(t)}[name]
+            body = '    assert_eq!(sys::%s(%s, %s), %s, "C15: %s");\n' % (name, rs_str(s), rs_str(t), "true" if exp else "false", name)
+        src = "use rivia::prelude::*;\n#[test]\nfn replay_pathtext() {\n    // %s\n%s}\n" % (f["desc"], body)
+        r = native_test(src, ctx.logdir, "c15_text_%d" % len(seen))
+        reproduced = r["ran"] and r["failed"] > 0
+        rec = dict(kind=f["kind"], desc='"%s" p=%r s=%r' % (f["desc"], s, t), where=f.get("where", ""),
+                   reproduced=reproduced, replay_outcome=r["out"][-400:])
+        if reproduced:
+            rec["replay"] = save_replay(prop, "c15_pathtext", src, f["desc"], dict(failed=r["failed"]))
+        unit["failures"].append(rec)
+        unit["status"] = "violation"
+    return finish(unit, ex, solver, ob, t0, dict(models_used="Path/str/String as symbolic char sequences with UTF-8 byte-length arithmetic"))
+
+
+@job("c15_pathtext", ["C15", "C12"], "quick",
+     functions=["sys::{trim_prefix,trim_suffix,has,has_prefix,has_suffix} (real MIR)", "<Path as ToStringExt>::to_string (real MIR, inlined)",
+                "<String as StringExt>::size (real MIR, inlined)"],
+     bounds="every (path, s) of valid UTF-8 text with |path| <= 4 and |s| <= 3 Unicode scalars (1-4 byte encodings)")
+def c15_pathtext(ctx, prop):
+    return run_pathtext(ctx, prop, 4, 3)
